@@ -99,9 +99,18 @@ fn main() {
         }
     }
 
+    // thorough tier of the generator-driven engines: run as parallel shards and merge
+    const SHARDED: [&str; 15] = ["C01", "C02", "C03", "C05", "C06", "C07", "C08", "C09", "C10", "C12", "C13", "C14", "C16", "C17", "C19"];
+    if tier == Tier::Thorough && SHARDED.contains(&id) && std::env::var("VERIF_SHARDS").is_err() && std::env::var("VERIF_NO_SHARDS").is_err() {
+        let n = std::thread::available_parallelism().map(|n| n.get() as u64).unwrap_or(4).clamp(2, 12);
+        std::process::exit(core::run_sharded(id, seed, n));
+    }
+
     // regression seeds first
     let dir = core::root().join("replays/regress");
-    if let Ok(rd) = std::fs::read_dir(&dir) {
+    if !ctx.first_shard() {
+        // regression replays run on the first shard only
+    } else if let Ok(rd) = std::fs::read_dir(&dir) {
         let mut files: Vec<_> = rd.flatten().map(|e| e.path()).filter(|p| p.file_name().and_then(|n| n.to_str()).is_some_and(|n| n.starts_with(id) && n.ends_with(".json"))).collect();
         files.sort();
         let mut n = 0u64;
